@@ -147,11 +147,49 @@ def bind_module_constants(tree, env):
     constants and the model classes already in env (lookup tables, literal lists, BlackBox definitions)."""
     from .minieval import MiniEval
 
+    done = env.setdefault("__module_statements_done__", set())
     for st in tree.body:
+        if (isinstance(st, ast.Expr) and isinstance(st.value, ast.Call) and isinstance(st.value.func, ast.Attribute) and isinstance(st.value.func.value, ast.Name)
+                and st.value.func.attr in ("update", "append", "extend", "add", "setdefault", "insert", "discard", "remove", "pop", "clear", "sort", "reverse")) \
+                or (isinstance(st, ast.AugAssign) and isinstance(st.target, ast.Name)):
+            # a module-level statement that completes a table after it was created (`_ALONE.update(...)`, `TYPES += [...]`): run once,
+            # in source order, as soon as the table exists
+            tname = st.value.func.value.id if isinstance(st, ast.Expr) else st.target.id
+            if id(st) in done or tname not in env:
+                continue
+            try:
+                from .minieval import BlockInterp
+
+                bi_ = BlockInterp(env, max_steps=20000)
+                bi_.me.env = env
+                bi_.stmt(st)
+                done.add(id(st))
+            except (Unsupported, ModelRaise, Exception):
+                pass
+            continue
         if isinstance(st, ast.AnnAssign) and st.value is not None and isinstance(st.target, ast.Name):
             name, value = st.target.id, st.value
         elif isinstance(st, ast.Assign) and len(st.targets) == 1 and isinstance(st.targets[0], ast.Name):
             name, value = st.targets[0].id, st.value
+        elif isinstance(st, ast.Assign) and all(isinstance(t, (ast.Name, ast.Tuple, ast.List)) and all(isinstance(e, ast.Name) for e in getattr(t, "elts", ())) for t in st.targets):
+            # `A, B, C = 1, 2, 4` and `a = b = <expr>` at module level
+            names = [e.id for t in st.targets for e in (t.elts if isinstance(t, (ast.Tuple, ast.List)) else [t])]
+            if all(nm in env for nm in names):
+                continue
+            me = MiniEval(env)
+            try:
+                v = me.ev(st.value)
+                for t in st.targets:
+                    if isinstance(t, ast.Name):
+                        env.setdefault(t.id, v)
+                    else:
+                        vals = list(v)
+                        if len(vals) == len(t.elts):
+                            for e, x in zip(t.elts, vals):
+                                env.setdefault(e.id, x)
+            except (Unsupported, ModelRaise, Exception):
+                pass
+            continue
         else:
             continue
         if name in env:
@@ -645,7 +683,18 @@ class RepoInstance(Model):
                     prek = {k.arg: ev(k.value) for k in v.keywords if k.arg}
                     ms[name] = (lambda inner_, pre_, prek_: (lambda *a, **k: inner_(*pre_, *a, **{**prek_, **k})))(inner, pre, prek)
                     return ms[name]
-                return ev(v)
+                # a class-level value is created once per class (a descriptor object is told its name, then answers per instance)
+                ckey = ("_class_attr", rel, cls, name)
+                if ckey not in pkg._method_closures:
+                    val = ev(v)
+                    from .userclass import UserInstance as _UI
+
+                    if isinstance(val, _UI) and val._uc_special("__set_name__") is not None:
+                        val._uc_special("__set_name__").clo(val, repo_class(pkg, rel, cls), name)
+                    pkg._method_closures[ckey] = val
+                from .userclass import apply_descriptor
+
+                return apply_descriptor(pkg._method_closures[ckey], self, repo_class(pkg, rel, cls))
             raise AttributeError(name)
         clo = pkg.method_closure(rel, f"{cls}.{name}")
         bound = bind_with_decorators(pkg.repo.funcs[key].node, clo, self)
